@@ -95,16 +95,32 @@ def guard_atoms(body, bb, prog=None, assume=(), _depth=0):
                     else:
                         ok = False
                         break
+                # definitions in blocks that cannot be reached under `assume` do not count
+                if assume:
+                    live = body.reach_under(assume)
+                    same_const = [x for x in same_const if x in live]
+                    other = [(x, t) for (x, t) in other if x in live]
                 implied = []
                 if ok and len(same_const) == 1 and not other and same_const[0] != bb:
                     # `matches!` lowering: the unique block assigning `pol`
-                    implied = guard_atoms(body, same_const[0], prog, (), _depth + 1)
+                    implied = guard_atoms(body, same_const[0], prog, assume, _depth + 1)
                 elif ok and not same_const and len(other) == 1 and len(defs) >= 2:
                     # `let b = match x { Some(s) => s.test(), None => false }`: b == true implies the arm's guards and test()
                     dbb, t = other[0]
-                    implied = list(guard_atoms(body, dbb, prog, (), _depth + 1))
+                    implied = list(guard_atoms(body, dbb, prog, assume, _depth + 1))
                     nb = norm_bool(t, a[2])
                     implied.append(nb + (dbb,))
+                elif ok and (len(same_const) + len(other)) >= 2 and _depth < 2:
+                    # several ways to obtain `pol` (e.g. an inlined predicate with one result per branch): what holds in every one of them
+                    cands = []
+                    for x in same_const:
+                        cands.append([y[:3] for y in guard_atoms(body, x, prog, assume, _depth + 1)])
+                    for (dbb, t) in other:
+                        c = [y[:3] for y in guard_atoms(body, dbb, prog, assume, _depth + 1)]
+                        c.append(norm_bool(t, a[2])[:3])
+                        cands.append(c)
+                    common = [y for y in cands[0] if all(y in c for c in cands[1:])]
+                    implied = [y + (None,) for y in common]
                 for x in implied:
                     if x not in out:
                         out.append(x)
